@@ -17,6 +17,8 @@ Skeleton (nested tuples; weight = number of nodes)
     ("inc", body)                            <%include file="/iN"/>  (body = body of the included file)
     ("inh", body)                            ${next.body()} in the base template; body = body of the inheriting template
     ("cb",)                                  ${CB(caller)}
+    ("py", content)                          <%call expr="SCF(context, A, i)">content</%call>: a Python function under
+                                             runtime.supports_caller that writes <p>, probes, calls caller.body(), writes </p>
 
 Final program (JSON-able)
     {"files": {uri: {"inherit": uri|None, "decls": [def..], "body": [stmt..]}}, "main": uri, "root": uri, "nprobes": n,
@@ -24,6 +26,7 @@ Final program (JSON-able)
     def  = {"name", "b": bool, "f": probe|None, "c": bool, "d": [probe, probe]|None, "top": bool, "decls": [def..], "body": [stmt..]}
     stmt = ["text", s] | ["nl"] | ["probe", i] | ["try", body, hbody] | ["for", n, body] | ["lo"] | ["cb"]
          | ["call", form, defname, argprobe, content|None] | ["textf", probe, s] | ["inc", uri] | ["inh", uri]
+         | ["py", argprobe, probe, content] | ["ob"]        (ob: ${ob()}, a def of the file whose body is ${CB(caller)})
 """
 
 import functools
@@ -132,6 +135,9 @@ class Grammar:
                                         out.append(("call", form, fl, where, d, c))
                                 else:
                                     out.append(("call", form, fl, where, d, None))
+        if self.on("py"):
+            for c in self.blocks(w - 1, (False, False, inc_ok, False)):
+                out.append(("py", c))
         if inc_ok and self.on("inc"):
             for b in self.blocks(w - 1, (True, False, False, False)):
                 out.append(("inc", b))
@@ -146,10 +152,13 @@ class Grammar:
         return self.blocks(w, (True, False, True, True))
 
 
+NODE_KINDS = ("text", "try", "for", "call", "textf", "inc", "inh", "cb", "py")
+
+
 def kinds_of(x, acc=None):
     acc = set() if acc is None else acc
     if isinstance(x, tuple):
-        if x and isinstance(x[0], str) and x[0] in ("text", "try", "for", "call", "textf", "inc", "inh", "cb"):
+        if x and isinstance(x[0], str) and x[0] in NODE_KINDS:
             acc.add(x[0])
             if x[0] == "call":
                 acc.add("call:" + x[1])
@@ -166,7 +175,7 @@ def kinds_of(x, acc=None):
 
 def weight(x):
     if isinstance(x, tuple):
-        if x and isinstance(x[0], str) and x[0] in ("text", "try", "for", "call", "textf", "inc", "inh", "cb"):
+        if x and isinstance(x[0], str) and x[0] in NODE_KINDS:
             return 1 + sum(weight(y) for y in x[1:])
         return sum(weight(y) for y in x)
     return 0
@@ -221,7 +230,14 @@ class _Fin:
             if scope["infor"]:
                 out.append(["lo"])
             out.append(["cb"])
+            out.append(["ob"])  # a def called without content right after the handler has no caller
+            scope["file"]["ob"] = True
             return out
+        if k == "py":
+            ap = self.probe()
+            ip = self.probe()
+            c = self.block(s[1], {"decls": scope["decls"], "ndecls": None, "infor": False, "file": scope["file"]})
+            return [["py", ap, ip, c]]
         if k == "for":
             sc = dict(scope, infor=True)
             body = [["lo"]] + self.block(s[1], sc)
@@ -243,7 +259,7 @@ class _Fin:
             if "d" in fl:
                 d["d"] = [self.probe(), None]
             argprobe = self.probe()
-            dscope = {"decls": scope["decls"], "ndecls": d["decls"], "infor": False}
+            dscope = {"decls": scope["decls"], "ndecls": d["decls"], "infor": False, "file": scope["file"]}
             d["body"] = self.block(dbody, dscope)
             if "f" in fl:
                 d["f"] = self.probe()
@@ -255,7 +271,7 @@ class _Fin:
                 scope["ndecls"].append(d)
             c = None
             if form == "tag":
-                cscope = {"decls": scope["decls"], "ndecls": None, "infor": False}
+                cscope = {"decls": scope["decls"], "ndecls": None, "infor": False, "file": scope["file"]}
                 c = self.block(content, cscope)
             return [["call", form, name, argprobe, c]]
         if k == "inc":
@@ -263,19 +279,19 @@ class _Fin:
             uri = "/i%d" % self.ni
             f = {"inherit": None, "decls": [], "body": None}
             self.files[uri] = f
-            f["body"] = self.block(s[1], {"decls": f["decls"], "ndecls": None, "infor": False})
+            f["body"] = self.block(s[1], {"decls": f["decls"], "ndecls": None, "infor": False, "file": f})
             return [["inc", uri]]
         if k == "inh":
             f = {"inherit": "/base", "decls": [], "body": None}
             self.files["/main"] = f
-            f["body"] = self.block(s[1], {"decls": f["decls"], "ndecls": None, "infor": False})
+            f["body"] = self.block(s[1], {"decls": f["decls"], "ndecls": None, "infor": False, "file": f})
             return [["inh", "/main"]]
         raise ValueError(k)
 
 
 def _layout_file(f):
     """insert explicit ["nl"] statements (a literal line break, which is output) so that every control line starts a line"""
-    st = {"bol": f["inherit"] is None}
+    st = {"bol": f["inherit"] is None and not f.get("ob")}
 
     def lay_def(d):
         st["bol"] = False  # after the opening tag
@@ -311,6 +327,11 @@ def _layout_file(f):
                 c = lay_block(s[4])
                 out.append(["call", s[1], s[2], s[3], c])
                 st["bol"] = False
+            elif k == "py":
+                st["bol"] = False
+                c = lay_block(s[3])
+                out.append(["py", s[1], s[2], c])
+                st["bol"] = False
             else:
                 out.append(s)
                 st["bol"] = False
@@ -327,7 +348,7 @@ def finalise(skel, letters="abcdefghijklmnopqrstuvwxyz"):
     rooturi = "/base" if inh else "/main"
     root = {"inherit": None, "decls": [], "body": None}
     fin.files[rooturi] = root
-    root["body"] = fin.block(skel, {"decls": root["decls"], "ndecls": None, "infor": False})
+    root["body"] = fin.block(skel, {"decls": root["decls"], "ndecls": None, "infor": False, "file": root})
     for uri in sorted(fin.files):
         _layout_file(fin.files[uri])
     return {
@@ -391,12 +412,17 @@ def p_stmt(s):
         return '<%%include file="%s"/>' % s[1]
     if k == "inh":
         return "${next.body()}"
+    if k == "ob":
+        return "${ob()}"
+    if k == "py":
+        return '<%%call expr="SCF(context, P(%d, T), %d)">' % (s[1], s[2]) + p_block(s[3]) + "</%call>"
     raise ValueError(k)
 
 
 def p_file(f):
     head = '<%%inherit file="%s"/>' % f["inherit"] if f["inherit"] else ""
-    return head + "".join(p_def(d) for d in f["decls"]) + p_block(f["body"])
+    ob = '<%def name="ob()">${CB(caller)}</%def>' if f.get("ob") else ""
+    return head + ob + "".join(p_def(d) for d in f["decls"]) + p_block(f["body"])
 
 
 def print_program(prog):
